@@ -461,10 +461,14 @@ def new_ltf_plan(**args):
         
         # The bmin constraint must always be respected
         if fbin < bmin:
-            fres = fi / bmin
-            dftlen = int(fs/fres) # Recalculate L if bmin was enforced
-            fbin = bmin
+            # Smallest admissible L whose bin number f*L/fs reaches bmin
+            dftlen = min(max(int(math.ceil(bmin * fs / fi)), Lmin), N)
             nseg = int(np.round((N - dftlen) / (xov * dftlen) + 1))
+            nseg = min(nseg, N - dftlen + 1)
+            if nseg == 1:
+                dftlen = N
+            fres = fs / dftlen
+            fbin = fi / fres
 
 
         # --- C. Store results and update state for the next iteration ---
